@@ -43,10 +43,17 @@ def _unique_zids(ap, rng, used):
 def _gen_dir(rng):
     used = set()
     pages = {}
+    if rng.random() < 0.4:
+        # two pages whose paths differ only in a LIKE wildcard position or in letter case
+        for name in rng.choice([("e-f.zo", "e_f.zo"), ("A.zo", "a.zo"), ("sub/cXd.zo", "sub/c_d.zo")]):
+            ap = G.rand_page(rng)
+            _unique_zids(ap, rng, used)
+            pages[name] = G.render(ap)[0]
     for i in range(rng.randint(1, 3)):
         ap = G.rand_page(rng)
         _unique_zids(ap, rng, used)
-        name = rng.choice(["a.zo", "b.zo", "sub/c.zo", "sub/deep/d.zo", "e_f.zo"])
+        # names that differ only in a LIKE wildcard position ('_', '%') or in letter case are on purpose
+        name = rng.choice(["a.zo", "A.zo", "b.zo", "sub/c.zo", "sub/deep/d.zo", "e_f.zo", "e-f.zo", "eXf.zo", "p%q.zo", "pABq.zo"])
         while name in pages:
             name = "x" + name
         pages[name] = G.render(ap)[0]
